@@ -567,6 +567,11 @@ public:
       pre = strengthen(head, pre);
     }
 
+    // If the analysis starts at this head then its initial value flows
+    // into the head at every iteration, together with the back edges.
+    const bool start_at_head = entry_in_this_cycle && (head == m_entry);
+    const AbstractValue start_val = (start_at_head ? pre : make_bottom());
+
     for (unsigned int iteration = 1;; ++iteration) {
       // keep track of how many times the cycle is visited by the fixpoint
       cycle.increment_fixpo_visits();
@@ -580,7 +585,7 @@ public:
         it->accept(this);
       }
       crab::CrabStats::resume("Fixpo.join_predecessors");
-      AbstractValue new_pre = std::move(make_bottom());
+      AbstractValue new_pre = start_val;
       for (basic_block_label_t prev : prev_nodes) {
         new_pre |= m_iterator->get_post(prev);
       }
@@ -615,7 +620,7 @@ public:
         it->accept(this);
       }
       crab::CrabStats::resume("Fixpo.join_predecessors");
-      AbstractValue new_pre = std::move(make_bottom());
+      AbstractValue new_pre = start_val;
       for (basic_block_label_t prev : prev_nodes) {
         new_pre |= m_iterator->get_post(prev);
       }
